@@ -17,6 +17,8 @@ pub mod lincode;
 #[cfg(feature = "full")]
 pub mod hiding;
 #[cfg(feature = "full")]
+pub mod ipa_forge;
+#[cfg(feature = "full")]
 pub mod refcheck;
 
 use scenario::Scenario;
